@@ -14,7 +14,8 @@ Variable entries : xml -> mentries.
 Variable kids : xml -> list kid.
 Variable mime : bytes -> mtype.
 Variable rdf0 : bytes.
-Variable mask : xml -> xml.
+Variable proj : Type.
+Variable mask : xml -> proj.
 Hypothesis par_ser : forall x, par (ser x) = x.
 Notation container := (container bytes).
 Notation document := (document xml bytes).
@@ -27,8 +28,8 @@ Notation WFd := (WFd xml bytes kid).
 Notation c_get_part := (c_get_part bytes kid FIXED).
 Notation c_load_missing := (c_load_missing bytes kid FIXED).
 Notation d_tree := (d_tree xml bytes kid par FIXED).
-Notation view := (view xml bytes kid par mask).
-Notation file_view := (file_view xml bytes kid par mask).
+Notation view := (view xml bytes kid par proj mask).
+Notation file_view := (file_view xml bytes kid par proj mask).
 
 Lemma live_lookup : forall (c : container) n, NoDup (map fst (parts _ c)) ->
   lookup n (live _ c) = match lookup n (parts _ c) with Some (Some b) => Some b | _ => None end.
@@ -90,14 +91,15 @@ Proof.
 Qed.
 
 Lemma listing_covers_disk : forall fs (c : container) n, WFc fs c ->
-  ~ In n (c_listing bytes kid fs c) -> lookup n (parts _ c) = None -> disk_lookup bytes kid fs (cpath _ c) n = None.
+  ~ In n (c_listing bytes kid FIXED fs c) -> lookup n (parts _ c) = None -> disk_lookup bytes kid fs (cpath _ c) n = None.
 Proof.
-  intros fs c n W Hn L. unfold Package.c_listing in Hn. unfold Package.disk_lookup.
+  intros fs c n W Hn L. unfold Package.c_listing in Hn. cbn [fx35 FIXED] in Hn. unfold Package.disk_lookup.
   destruct (cpath _ c) as [p|] eqn:Cp; [|reflexivity].
   assert (Hpk : pkg _ c <> PXml) by (apply (wf_pk _ _ _ _ W); rewrite Cp; discriminate).
   destruct (disk_entries bytes kid fs p) as [es|] eqn:D; [|reflexivity].
-  destruct (lookup n es) eqn:Le; [|reflexivity]. exfalso. apply Hn.
-  destruct (pkg _ c); try congruence; eapply lookup_in_keys; eauto.
+  destruct (lookup n es) eqn:Le; [|reflexivity]. exfalso. apply Hn. apply in_or_app. left.
+  apply filter_In. split; [|rewrite L; reflexivity].
+  unfold Package.c_stored. rewrite Cp, D. destruct (pkg _ c); try congruence; eapply lookup_in_keys; eauto.
 Qed.
 
 Definition saved_entries (fs' : fsys) (t : target) : list (name * bytes) := file_entries bytes kid (lookup (tgt_id t) fs').
@@ -110,10 +112,10 @@ Lemma c_save_sem : forall fs (c : container) t pk c' fs', WFc fs c -> pk <> PXml
   /\ (pk = PZip -> exists es, lookup (tgt_id t) fs' = Some (FZip es) /\ save_zip _ c' = Some es).
 Proof.
   intros fs c t pk c' fs' W Hpk H. unfold Package.c_save in H.
-  destruct (c_load_missing_sem fs (c_listing bytes kid fs c) c W) as [L1 [L2 [L3 [L4 [L5 L6]]]]].
-  set (c1 := c_load_missing fs (c_listing bytes kid fs c) c) in *.
+  destruct (c_load_missing_sem fs (c_listing bytes kid FIXED fs c) c W) as [L1 [L2 [L3 [L4 [L5 L6]]]]].
+  set (c1 := c_load_missing fs (c_listing bytes kid FIXED fs c) c) in *.
   assert (Hall : forall n, lookup n (parts _ c1) = None -> disk_lookup bytes kid fs (cpath _ c1) n = None).
-  { intros n Ln. rewrite L3. destruct (in_dec Z.eq_dec n (c_listing bytes kid fs c)) as [Hi|Hi]; [apply L5; assumption|].
+  { intros n Ln. rewrite L3. destruct (in_dec Z.eq_dec n (c_listing bytes kid FIXED fs c)) as [Hi|Hi]; [apply L5; assumption|].
     apply listing_covers_disk; [exact W|exact Hi|].
     destruct (lookup n (parts _ c)) eqn:L0; [|reflexivity]. exfalso. apply (L6 n); [congruence|exact Ln]. }
   pose proof (all_loaded_live fs c1 L2 Hall) as Hlive.
